@@ -135,7 +135,7 @@ macro_rules! ctr_resume {
             kani::assume(pos <= <$ct>::MAX - 2 * N as $ct);
             let c = UfE::<$bs, $par>::with_key(kani::any());
             let mut core = ctr::CtrCore::<_, ctr::flavors::$flavor>::inner_iv_init(c.clone(), blk::<$bs>(&iv));
-            core.set_block_pos(pos);
+            core.set_block_pos(pos as _);
             let st = core.iv_state();
             let want = spec::ctr_layout($spec, &iv, B, pos as u128);
             let mut j = 0;
@@ -155,7 +155,7 @@ macro_rules! ctr_resume {
             let mut s2 = [0u8; B];
             split_on!(k, 0, N, k_ => {
                 let mut c1 = ctr::CtrCore::<_, ctr::flavors::$flavor>::inner_iv_init(c.clone(), blk::<$bs>(&iv));
-                c1.set_block_pos(pos);
+                c1.set_block_pos(pos as _);
                 let (p1, p2) = blocks_mut::<$bs>(&mut b).split_at_mut(k_);
                 c1.apply_keystream_blocks(p1);
                 let st_k = c1.iv_state();
@@ -193,7 +193,7 @@ macro_rules! belt_resume {
             kani::assume(pos <= u128::MAX - 2 * N as u128);
             let c = Uf::<U16, $par>::with_key(kani::any());
             let mut core = belt_ctr::BeltCtrCore::inner_iv_init(c.clone(), blk::<U16>(&iv));
-            core.set_block_pos(pos);
+            core.set_block_pos(pos as _);
             let _ = core.iv_state();
             // at position 0 the exported state is the IV itself
             let core0 = belt_ctr::BeltCtrCore::inner_iv_init(c.clone(), blk::<U16>(&iv));
@@ -211,7 +211,7 @@ macro_rules! belt_resume {
             let mut b = data;
             split_on!(k, 0, N, k_ => {
                 let mut c1 = belt_ctr::BeltCtrCore::inner_iv_init(c.clone(), blk::<U16>(&iv));
-                c1.set_block_pos(pos);
+                c1.set_block_pos(pos as _);
                 let (p1, p2) = blocks_mut::<U16>(&mut b).split_at_mut(k_);
                 c1.apply_keystream_blocks(p1);
                 let st_k = c1.iv_state();
